@@ -34,7 +34,7 @@ def unifying_lookalike(rng):
 
 
 def gen_case(rng, ctx):
-    cls, ds = gen.dataset(rng, classes="D1 D2 D3 D3 D4 D5 D6 D6 D7 D8", nmax=8, mmax=7)
+    cls, ds = gen.dataset(rng, classes="D1 D2 D3 D3 D4 D5 D6 D6 D7 D8 D17 D17 D16", nmax=8, mmax=7)
     ds = libx.normalise_raw(ds)
     which = rng.random()
     if which < 0.12:
@@ -48,7 +48,7 @@ def gen_case(rng, ctx):
     elif which < 0.5:
         scls, sch = "unifying-lookalike", unifying_lookalike(rng)
     else:
-        scls, sch = gen.scheme(rng, "S1 S2 S3 S4 S5")
+        scls, sch = gen.scheme(rng, "S1 S2 S3 S4 S5 S10 S12 S12")
     sch2 = gen.scheme(rng, "S1 S2 S3 S11 S9")[1] if rng.random() < 0.7 else None
     return {"ds": ds, "scheme": sch, "scheme2": sch2, "dcls": cls, "scls": scls, "one": rng.random() < 0.5}
 
